@@ -36,7 +36,8 @@ def graph_case(draw, tier):
         st.tuples(st.just("perc"), st.sampled_from([0.0, 1.0, 1.0, 0.5, 0.3, 0.9])),
         st.tuples(st.just("perc"), st.floats(0.0, 1.0)),
         st.tuples(st.just("rewire"), st.integers(0, 1000))), min_size=1, max_size=6))
-    return {"n": n, "edges": [list(sorted(e)) for e in edges], "labels": labels, "attrs": attrs,
+    return {"n": n, "flip": draw(st.booleans()), "edges_first": draw(st.booleans()),
+            "edges": [list(sorted(e)) for e in edges], "labels": labels, "attrs": attrs,
             "ops": [list(o) for o in ops], "seed": draw(st.integers(0, 2 ** 31))}
 
 
@@ -47,6 +48,8 @@ def strategy(tier):
 def enumerated(tier, seed):
     out = []
     T = 4000 if tier == "quick" else 40000
+    out.append({"stat": True, "bigstar": True, "M": 3000, "phi": 0.3, "T": 30 if tier == "quick" else 100, "seed": seed * 100 + 90})
+    out.append({"stat": True, "bigstar": True, "M": 1500, "phi": 0.5, "T": 30 if tier == "quick" else 100, "seed": seed * 100 + 91})
     for i, (M, phi) in enumerate([(4, 0.2), (7, 0.35), (12, 0.7), (1, 0.08), (3, 0.05), (2, 0.93)] + ([(5, 0.7), (9, 0.2), (10, 0.35)] if tier == "thorough" else [])):
         out.append({"stat": True, "M": M, "phi": phi, "T": T, "seed": seed * 100 + i})
     return out
@@ -68,6 +71,20 @@ def check(case):
     from gcmpy import bond_percolate
     if case.get("stat"):
         M, phi, T = case["M"], case["phi"], case["T"]
+        if case.get("bigstar"):
+            # many edges: the number of retained leaves is Binomial(M, phi); z-test of the mean over T runs
+            G = nx.star_graph(M)
+            tot = 0.0
+            with rng.seeded(case["seed"]):
+                for _ in range(T):
+                    tot += call("percolate", bond_percolate, G, phi) * (M + 1) - 1
+            mean = tot / T
+            sd = (M * phi * (1 - phi) / T) ** 0.5
+            z = (mean - M * phi) / sd
+            if abs(z) > 6.5:  # two-sided normal tail below 1e-10
+                raise Violation("binomial-law-large", f"star with {M} leaves, phi={phi}: mean retained leaves {mean:.1f} over {T} runs, "
+                                                      f"Binomial mean {M * phi:.1f} (z = {z:.1f})")
+            return {"nontrivial": True, "classes": ["statistical", "large_star"], "notes": {"z_large_star": abs(z)}}
         G = nx.star_graph(M)
         cnt = [0] * (M + 1)
         with rng.seeded(case["seed"]):
@@ -86,13 +103,18 @@ def check(case):
     n = case["n"]
     lab = {"int": lambda i: i, "offset": lambda i: 10 * i + 7, "str": lambda i: f"v{i}"}[case["labels"]]
     G = nx.Graph()
-    for i in range(n):
-        G.add_node(lab(i))
+    if not case.get("edges_first"):
+        for i in range(n):
+            G.add_node(lab(i))
     for j, (a, b) in enumerate(case["edges"]):
+        if case.get("flip") and (a + b + j) % 2:
+            a, b = b, a  # edges listed (larger, smaller): vertices then enter the graph in descending order
         if case["attrs"]:
             G.add_edge(lab(a), lab(b), topology=f"t{j % 2}", motif_ids=j, w=[j])
         else:
             G.add_edge(lab(a), lab(b))
+    for i in range(n):
+        G.add_node(lab(i))
     classes = {"labels_" + case["labels"]}
     mid = False
     with rng.seeded(case["seed"]):
